@@ -71,13 +71,40 @@ Fixpoint table_run (mask : N) (t : table) (om : omap) (evs : list (event * ev_ob
       if outcome_ok mask t b o false e then table_run mask t om evs' (S i) else Some i
   end.
 
-Record table_case := { tc_mask : N; tc_table : table; tc_events : list (event * ev_obs); tc_mutated : bool }.
+Record table_case := { tc_mask : N; tc_table : table; tc_events : list (event * ev_obs); tc_mutated : bool;
+                        tc_agg_keys : option (list bytes) }.   (* stalled-aggregator runs: series names finally emitted *)
+
+(* series names the aggregations must emit: one per consumed (rewritten) name, plus the warm-up point *)
+Fixpoint expected_keys (t : table) (om : omap) (evs : list (event * ev_obs)) : list bytes :=
+  match evs with
+  | [] => []
+  | (ELine b, e) :: evs' =>
+      let '(om', o) := dispatch rx_search t om b (eo_val_ok e) (eo_ts_ok e) (eo_ts e) in
+      flat_map (fun i => match nth_error (t_aggs t) i with
+                         | Some a => match match_regex_and_expand (a_matcher a) (o_name o) (a_outfmt a) with
+                                     | Some k => [k] | None => [] end
+                         | None => [] end) (o_agg_consumed o)
+      ++ expected_keys t om' evs'
+  | (EAgg _, _) :: evs' => expected_keys t om evs'
+  end.
+
+Definition warm_keys (t : table) : list bytes :=
+  flat_map (fun a => if mpre (a_matcher a) [119; 97; 114; 109] then
+                       match match_regex_and_expand (a_matcher a) [119; 97; 114; 109] (a_outfmt a) with
+                       | Some k => [k] | None => [] end else []) (t_aggs t).
+
+Definition subset (a b : list bytes) : bool := forallb (fun x => existsb (beqb x) b) a.
 
 (* the table model pins every projected observable: a difference is a violation of the property under check *)
 Definition table_verdict (c : table_case) : N :=
   if tc_mutated c then 2 else
   match table_run (tc_mask c) (tc_table c) [] (tc_events c) 0 with
-  | None => 0
+  | None =>
+      match tc_agg_keys c with
+      | None => 0
+      | Some ks => let ex := expected_keys (tc_table c) [] (tc_events c) in
+                   if subset ks ex && subset ex ks then 0 else 2
+      end
   | Some _ => 2
   end.
 
